@@ -1589,6 +1589,12 @@ BODY_SPECS = [
     ("config_parser.py", "BLDFMConfig.__post_init__", "config_post_init"),
     ("config_parser.py", "TowerConfig.compute_local_xy", "tower_compute_local_xy"),
     ("config_parser.py", "parse_config_dict", "parse_config_dict"),
+    ("config_parser.py", "_parse_tower", "cfg_parse_tower"),
+    ("config_parser.py", "_parse_domain", "cfg_parse_domain"),
+    ("config_parser.py", "_parse_met", "cfg_parse_met"),
+    ("config_parser.py", "_parse_solver", "cfg_parse_solver"),
+    ("config_parser.py", "_parse_parallel", "cfg_parse_parallel"),
+    ("config_parser.py", "load_config", "cfg_load_config"),
     ("cli.py", "cmd_run", "cli_cmd_run"),
     ("fft_manager.py", "get_fft_manager", "fft_get_manager"),
     ("fft_manager.py", "reset_fft_manager", "fft_reset_manager"),
